@@ -100,7 +100,29 @@ def one_system(rec, seedt):
     inputs, y, kinds, coup = make_system(rng, q, N, exact, disparity)
     kw = options(rng, N)
     fs = float(rng.choice([1.0, 100.0]))
-    desc = {"kind": "system", "seed": list(seedt), "q": q, "N": N, "exact": exact,
+    # the same samples in the containers / dtypes callers use: integer-valued data held as int
+    # arrays (raw ADC counts), lists, float32
+    form = str(rng.choice(["float64", "float64", "int-first-input", "int-all-inputs", "lists",
+                           "float32-inputs"]))
+    if form in ("int-first-input", "int-all-inputs"):
+        scale = [float(200.0 / (np.max(np.abs(v)) or 1.0)) for v in inputs]
+        ints = [np.round(v * s_).astype(np.int64) for v, s_ in zip(inputs, scale)]
+        if not exact:
+            y = y  # the output keeps its fractional values
+        which_int = range(q) if form == "int-all-inputs" else [0]
+        inputs = [ints[i] if i in which_int else inputs[i] for i in range(q)]
+        if exact:
+            # rebuild the exact combination from the samples actually passed
+            y = sum(float(c_[1]) * np.asarray(v, dtype=float) / 1.0 for c_, v in zip(coup, inputs)) \
+                if all(c_[0] == "static" for c_ in coup) else y
+    elif form == "lists":
+        inputs = [v.tolist() for v in inputs]
+    elif form == "float32-inputs":
+        inputs = [np.asarray(v, dtype=np.float32) for v in inputs]
+        if exact:
+            y = sum(float(c_[1]) * np.asarray(v, dtype=np.float64) for c_, v in zip(coup, inputs))
+    ref_inputs = [np.asarray(v, dtype=np.float64) for v in inputs]   # same samples as float64
+    desc = {"kind": "system", "form": form, "seed": list(seedt), "q": q, "N": N, "exact": exact,
             "disparity": disparity, "inputs": kinds, "couplings": coup, "sched": kw["scheduler"],
             "order": kw["order"]}
     rec.case(desc, nontrivial=False)
@@ -163,6 +185,18 @@ def one_system(rec, seedt):
                 rec.violation(f"exact-combination-residual:{name}",
                               f"{tag}{name}: output is an exact static combination but residual/"
                               f"output = {over.max():.3e} at f={ry.f[j]:.5g}")
+    if form != "float64":
+        rf = run("MISO_numeric(float64 copy of the same samples)",
+                 lambda: systems.MISO_numeric_optimal_spectral_analysis(ref_inputs, np.asarray(y, dtype=float), fs, **kw))
+        if rf is not None and res.get("numeric") is not None:
+            rec.count("container_dtype_pairs")
+            d = np.abs(rf - res["numeric"])[sel] / asd_y[sel]
+            tolc = 1e-6 if exact else 1e-8
+            rec.ratio("container_dtype_err_over_tol", float(d.max()) / tolc)
+            if d.max() > tolc:
+                rec.violation("result-depends-on-container-dtype",
+                              f"{tag}numeric solver: the same samples passed as {form} and as "
+                              f"float64 arrays give residuals differing by {d.max():.3e} x asd_y")
     if res.get("numeric") is not None and res.get("analytic") is not None:
         rec.count("analytic_vs_numeric")
         d = np.abs(res["numeric"] - res["analytic"])[sel] / asd_y[sel]
@@ -213,7 +247,7 @@ def one_system(rec, seedt):
             break
     else:
         M = np.eye(q) + 0.1 * rng.standard_normal((q, q))
-    X = np.vstack(inputs)
+    X = np.vstack([np.asarray(v, dtype=np.float64) for v in inputs])
     mixed = [np.ascontiguousarray(r) for r in (M @ X)]
     rm = run("re-mixed", lambda: solver(mixed, y, fs, **kw))
     if rm is not None and not disparity:
@@ -230,7 +264,7 @@ def one_system(rec, seedt):
     # stationary in H, so the solve error enters to second order); beyond ~1e6 in amplitude the
     # matrix is numerically singular and no float64 solver can be invariant.
     sc = 10.0 ** rng.uniform(-2.5, 2.5, size=q)
-    scaled = [np.ascontiguousarray(s * v) for s, v in zip(sc, inputs)]
+    scaled = [np.ascontiguousarray(s * np.asarray(v, dtype=np.float64)) for s, v in zip(sc, inputs)]
     rs = None if disparity else run("re-scaled", lambda: solver(scaled, y, fs, **kw))
     if rs is not None:
         rec.count("rescale_pairs")
